@@ -10,11 +10,11 @@ CONSTANTS
   PwdValues = {"real", "link"}
   CwdVia = {"real", "link"}
   OcNames = {"rel"}
-  CwdSource = "PWD"
+  CwdSource = "getcwd"
   EpochEnvs = {"unset", "0", "normal"}
   ZeroMeansUnset = FALSE
   PrevFiles = {"none", "longer"}
-  Truncates = TRUE
+  Truncates = FALSE
   TieBreak = "signature"
 INVARIANT OutputPure
 CHECK_DEADLOCK FALSE
